@@ -60,9 +60,9 @@ def registry_accessTokenForScope : Shape :=
 
 def registry_acquireAccessToken : Shape :=
   { conds := ["if err != nil", "if !errors.As(err, &herr) || herr.StatusCode() != http.StatusUnauthorized", "if err != nil", "if tok.RefreshToken != \"\"", "if accessToken == \"\"", "if accessToken == \"\"", "if tok.ExpiresIn == 0"]
-    calls := ["requiredScope.Union(wantScope)", "r.acquireToken(ctx, scope)", "r.acquireToken(ctx, scope)", "now.Add(60 * time.Second)", "now.Add(time.Duration(tok.ExpiresIn) * time.Second)"]
+    calls := ["requestableScope(requiredScope).Union(requestableScope(wantScope))", "r.acquireToken(ctx, scope)", "r.acquireToken(ctx, scope)", "now.Add(60 * time.Second)", "now.Add(time.Duration(tok.ExpiresIn) * time.Second)"]
     returns := ["\"\", err", "\"\", err", "\"\", fmt.Errorf(\"no access token found in auth server response\")", "accessToken, nil"]
-    assigns := ["scope := requiredScope.Union(wantScope)", "scope = requiredScope", "r.refreshToken = tok.RefreshToken", "r.accessTokens = append(r.accessTokens, &scopedToken{scope: scope, token: accessToken, expires: expires})"] }
+    assigns := ["scope := requestableScope(requiredScope).Union(requestableScope(wantScope))", "scope = requestableScope(requiredScope)", "r.refreshToken = tok.RefreshToken", "r.accessTokens = append(r.accessTokens, &scopedToken{scope: scope, token: accessToken, expires: expires})"] }
 
 def registry_acquireToken : Shape :=
   { conds := ["if realm == \"\"", "if r.refreshToken != \"\"", "if service != \"\"", "if err != nil", "if err == nil", "if !errors.As(err, &herr) || herr.StatusCode() != http.StatusNotFound", "if err != nil", "if service != \"\"", "if err != nil", "if r.basic != nil"]
@@ -96,9 +96,15 @@ def registry_setAuthorization : Shape :=
 
 def registry_setAuthorizationFromChallenge : Shape :=
   { conds := ["if r.wwwAuthenticate.scheme == \"bearer\"", "if err != nil", "if r.basic != nil"]
-    calls := ["ParseScope(r.wwwAuthenticate.params[\"scope\"])", "r.acquireAccessToken(ctx, scope, wantScope.Union(requiredScope))", "wantScope.Union(requiredScope)", "req.Header.Set(\"Authorization\", \"Bearer \"+accessToken)", "req.SetBasicAuth(r.basic.username, r.basic.password)"]
+    calls := ["ParseScope(r.wwwAuthenticate.params[\"scope\"])", "r.acquireAccessToken(ctx, scope, requestableScope(wantScope).Union(requestableScope(requiredScope)))", "requestableScope(wantScope).Union(requestableScope(requiredScope))", "req.Header.Set(\"Authorization\", \"Bearer \"+accessToken)", "req.SetBasicAuth(r.basic.username, r.basic.password)"]
     returns := ["false, false, err", "true, true, nil", "true, false, nil", "false, false, nil"]
     assigns := ["r.wwwAuthenticate = challenge", "scope := ParseScope(r.wwwAuthenticate.params[\"scope\"])"] }
+
+def requestableScope : Shape :=
+  { conds := ["if s.IsUnlimited()"]
+    calls := []
+    returns := ["Scope{}", "s"]
+    assigns := [] }
 
 def skipSpace : Shape :=
   { conds := ["for i < len(s)", "if octetTypes[s[i]]&isSpace == 0"]
